@@ -922,6 +922,15 @@ var blockRules = map[BlockKind]blockRule{
 		},
 		onClose: func(source []byte, block *Block) []*Block {
 			// "Blank lines preceding or following an indented code block are not included in it."
+			// A whitespace-only last line that ends at the end of input is such a line
+			// even though it is followed by the synthetic line break.
+			if n := len(block.inlineChildren); n >= 2 {
+				last, prev := block.inlineChildren[n-1], block.inlineChildren[n-2]
+				if last.Kind() == SoftLineBreakKind && last.Span().Len() == 0 &&
+					prev.Kind() == TextKind && isBlankLine(spanSlice(source, prev.Span())) {
+					block.inlineChildren = block.inlineChildren[: n-1 : n-1]
+				}
+			}
 			for i := block.ChildCount() - 1; i >= 0; i-- {
 				child := block.inlineChildren[i]
 				if child.Kind() != TextKind || !isBlankLine(spanSlice(source, child.Span())) {
